@@ -77,7 +77,7 @@ def main():
                 "existing_suite_tests_passed": c.get("suite_passed"),
             },
             "my_checks": checks,
-            "how_checks_were_run": ("selftest/run_mutant_scratch.sh: patch applied to a scratch worktree of /repo, ./check <ID> quick (seed 1) from a scratch copy of /verif whose harness depends on that worktree (a thorough sweep was building from /repo at the time); first against the checks as they stood before the round, then against the strengthened ones" if ROUND == "3" else "selftest/run_mutant.sh: git -C /repo apply patch.diff; ./check <ID> quick (seed 1, evidence redirected to scratch); git -C /repo checkout -- ."),
+            "how_checks_were_run": ("selftest/run_mutant_scratch.sh: patch applied to a scratch worktree of /repo, ./check <ID> quick (seed 1) from a scratch copy of /verif whose harness depends on that worktree (/repo itself stays untouched); first against the checks as they stood before the round, then against the strengthened ones" if ROUND in ("3", "4", "5") else "selftest/run_mutant.sh: git -C /repo apply patch.diff; ./check <ID> quick (seed 1, evidence redirected to scratch); git -C /repo checkout -- ."),
         }
         json.dump(meta, open(f"{d}/meta.json", "w"), indent=1)
         kept.append((pid, n if ROUND == "1" else f"r{ROUND}-{n}", checks))
